@@ -108,3 +108,71 @@ Example C12_dense_example :
             get T ["081"; "097"]%byte <> Ok NotFound /\
             index_get T (table_reader ex_dense) ["081"; "097"]%byte = Ok None.
 Proof. split; [reflexivity|]. split; [reflexivity|]. eexists. split; [vm_compute; reflexivity|]. vm_compute. repeat split. intros H; discriminate H. Qed.
+
+(* ------------------------------------------------------------------------------------
+   C12 THROUGH THE BITMAPS (message level, L3).  [encode_trie T] is the protobuf message of
+   the index's trie as data (Bits.v: 64-bit words with rank/select indexes, packed label
+   bitmaps, short-node table, VLenArrays), [init_vars] is initVars.  [mindex_get] /
+   [mindex_rangeget] (IndexMsg.v) are SlimIndex.Get / RangeGet with the trie lookup computed
+   from that message the way the Go code does (Msg.mget / Msg.mrangeget: getNode,
+   getLeftChildID, getLeafPrefix, searchID with leftMost/rightMost, VLenArray.get), followed
+   by the same type assertion, I64 decode and reader as above.  The fuel bounds the number of
+   nodes visited; any value from the height of the trie on will do.
+   Proofs in theories/IndexMsgProofs.v (on top of MsgProofs.v and the L3 refinement). *)
+From Slim Require Import BitmapRank BitmapRank2 Bits Msg MsgProofs IndexMsg IndexMsgProofs GetIntMsgProofs.
+
+(* every index trie has a message and initVars accepts it: the hypotheses below are satisfiable *)
+Theorem C12_message_exists :
+  forall (rs : list rcd) (T : trie), index_build rs = Ok T ->
+    exists m vs, encode_trie T = Val m /\ init_vars m = Val vs.
+Proof. intros rs T Hb. exact (built_message_exists _ _ _ T Hb). Qed.
+Print Assumptions C12_message_exists.
+
+(* the index lookups computed from the message are those of the tree model, for any reader *)
+Theorem C12_message_lookups_are_the_tree_lookups :
+  forall (rs : list rcd) (T : trie) (m : msg) (vs : vars) (rd : reader) (q : key) (fuel : nat),
+    index_build rs = Ok T -> encode_trie T = Val m -> init_vars m = Val vs -> trie_height T <= fuel ->
+    mindex_get (S fuel) m vs rd q = index_get T rd q /\
+    mindex_rangeget (S fuel) m vs rd q = index_rangeget T rd q.
+Proof. exact mindex_eq. Qed.
+Print Assumptions C12_message_lookups_are_the_tree_lookups.
+
+(* the property, computed from the message: dense index + Get and sparse index + RangeGet,
+   composed with the key-verifying reader, are the exact record map for every query string *)
+Theorem C12_message_level :
+  forall (rs : list rcd) (T : trie) (m : msg) (vs : vars) (q : key) (fuel : nat),
+    offs_in_range rs = true -> index_build rs = Ok T ->
+    encode_trie T = Val m -> init_vars m = Val vs -> trie_height T <= fuel ->
+    (offs_increasing rs = true -> mindex_get (S fuel) m vs (table_reader rs) q = Ok (lookup rs q)) /\
+    (offs_nondecreasing rs = true -> mindex_rangeget (S fuel) m vs (table_reader rs) q = Ok (lookup rs q)).
+Proof. exact mindex_exact. Qed.
+Print Assumptions C12_message_level.
+
+(* the general forms *)
+Theorem C12_message_level_general :
+  forall (rs : list rcd) (T : trie) (m : msg) (vs : vars) (q : key) (fuel : nat),
+    offs_in_range rs = true -> index_build rs = Ok T ->
+    encode_trie T = Val m -> init_vars m = Val vs -> trie_height T <= fuel ->
+    (offs_adjacent_distinct rs = true -> mindex_get (S fuel) m vs (table_reader rs) q = Ok (lookup rs q)) /\
+    mindex_rangeget (S fuel) m vs (table_reader rs) q = Ok (lookup rs q).
+Proof. exact mindex_exact_general. Qed.
+Print Assumptions C12_message_level_general.
+
+(* non-vacuity: the two example tables, the lookups computed from the message *)
+Example C12_message_example :
+  (exists T m vs, index_build ex_block = Ok T /\ encode_trie T = Val m /\ init_vars m = Val vs /\
+     Nat.leb (trie_height T) 5 = true /\
+     mindex_rangeget 6 m vs (table_reader ex_block) ["065"; "108"]%byte = Ok (Some ["051"]%byte) /\
+     mindex_rangeget 6 m vs (table_reader ex_block) ["065"; "108"; "098"]%byte = Ok (Some []) /\
+     mindex_rangeget 6 m vs (table_reader ex_block) ["065"; "108"; "099"]%byte = Ok None /\
+     mindex_get 6 m vs (table_reader ex_block) ["065"; "103"]%byte = Ok None) /\
+  (exists T m vs, index_build ex_dense = Ok T /\ encode_trie T = Val m /\ init_vars m = Val vs /\
+     Nat.leb (trie_height T) 5 = true /\
+     mindex_get 6 m vs (table_reader ex_dense) ["065"; "097"]%byte = Ok (Some ["049"]%byte) /\
+     mindex_get 6 m vs (table_reader ex_dense) ["065"; "108"; "098"]%byte = Ok (Some ["052"]%byte) /\
+     mget 6 m vs ["081"; "097"]%byte = Ok (Found (Some ["000"; "000"; "000"; "000"; "000"; "000"; "000"; "128"]%byte)) /\
+     mindex_get 6 m vs (table_reader ex_dense) ["081"; "097"]%byte = Ok None).
+Proof.
+  split; (eexists; eexists; eexists; split; [vm_compute; reflexivity|]; split; [vm_compute; reflexivity|];
+          split; [vm_compute; reflexivity|]; vm_compute; repeat split).
+Qed.
